@@ -398,3 +398,11 @@ func runSharded(prop, tier, verif, out string, seed int64, n int) int {
 	}
 	return 0
 }
+
+// emitResult prints a sub-command's JSON result on a line of its own behind a marker, so that
+// anything the code under test may itself print to standard output cannot corrupt it.
+func emitResult(data []byte) {
+	os.Stdout.WriteString("\nVERIF-RESULT-7f3a9c ")
+	os.Stdout.Write(data)
+	os.Stdout.WriteString("\n")
+}
